@@ -1,0 +1,26 @@
+//go:build verif
+
+package latch
+
+// VerifSlots returns the stripe indices held by the guard, in lock order
+// (nil for an empty or released guard).
+func (g *Guard) VerifSlots() []int {
+	if g == nil {
+		return nil
+	}
+	return append([]int(nil), g.slots...)
+}
+
+// VerifLocked probes every stripe with TryLock and returns the indices that
+// are currently locked. Only meaningful while no Acquire/Release is running.
+func (m *Manager) VerifLocked() []int {
+	var out []int
+	for i := range m.stripes {
+		if m.stripes[i].TryLock() {
+			m.stripes[i].Unlock()
+		} else {
+			out = append(out, i)
+		}
+	}
+	return out
+}
